@@ -95,8 +95,10 @@ Section Constrain.
 
   Definition bumpN (x : T) : T := add N x eps.
 
+  Definition st0 (t : nat -> T) : lsstate := (t, fun _ => (zero N, zero N)).
+
   Definition constrain (k : nat) (es : list (nat * nat)) (t : nat -> T) : option (nat -> T) :=
-    match ls_loop k es (t, fun _ => (zero N, zero N)) with
+    match ls_loop k es (st0 t) with
     | None => None
     | Some (inl t') => Some t'
     | Some (inr st) => Some (forced T (leb N) bumpN es (fst st))
